@@ -282,7 +282,12 @@ def _run(case, root):
                 else:
                     if not all(A.key_ok(cfg, nm) for nm in kw) or (A.is_dir(cfg) and any(A.fname(nm) == A.fname(k) and nm != k for nm in kw for k in keys)):
                         kw = {}
-                    ro = outcome(lambda: r.update(dict(pairs), **kw))
+                    given = dict(pairs)
+                    ro = outcome(lambda: r.update(given, **kw))
+                    if ro[0] == 'ok' and not A.exact(given, dict(pairs)):
+                        # dict.update(m, **kw) never writes into m: the mapping handed in belongs to the caller
+                        d = Discrepancy('C03/%s/upd_kw/argument-mapping-modified' % tag, 'step %d %r: update(mapping, **%r) changed the mapping it was given: %s -> %s' % (
+                            step, op, kw, A.describe(dict(pairs)), A.describe(given)))
                 m.update(copy.deepcopy(dict(pairs)), **copy.deepcopy(kw))
                 if ro[0] != 'ok':
                     d = _unexpected(tag, step, op, ro, 'ok')
